@@ -36,3 +36,13 @@ Corollary scan_sends_filter f (l : list tx) :
 Proof.
   apply filter_ext. intros t. rewrite filter_prog_is_spec. unfold spec. cbn. destruct f; reflexivity.
 Qed.
+
+(* the translated txMentionsAccount searches exactly the lists the specification's [mentions] searches: the static keys
+   and BOTH loaded-address lists (the address index records all three) *)
+Theorem mention_sources_are_spec : forall x slot pos vote failed id a,
+  run_mentions mention_sources_c19 x a = mentions (tx_of x slot pos vote failed id) a.
+Proof.
+  intros x slot pos vote failed id a. unfold run_mentions, mention_sources_c19, mentions, tx_of. cbn -[existsb N.eqb].
+  cbn [existsb source_of]. rewrite existsb_app.
+  repeat match goal with |- context [existsb (N.eqb a) ?l] => destruct (existsb (N.eqb a) l) end; reflexivity.
+Qed.
